@@ -24,7 +24,7 @@ from a1util import b_json_tolerant, run_cases_par, crash_sig, latin1, Phases, tl
 INDENTS = [0, 2, 1, 4, -1]
 
 # content symbol -> byte (in the byte order the spec's Sym sequences list them)
-FIXED = {"NUL": 0x00, "TAB": 0x09, "NL": 0x0a, "QUOTE": 0x22, "SLASH": 0x2f, "BSLASH": 0x5c, "n": 0x6e, "u": 0x75}
+FIXED = {"NUL": 0x00, "BS": 0x08, "FF": 0x0c, "CR": 0x0d, "b": 0x62, "f": 0x66, "r": 0x72, "t": 0x74, "TAB": 0x09, "NL": 0x0a, "QUOTE": 0x22, "SLASH": 0x2f, "BSLASH": 0x5c, "n": 0x6e, "u": 0x75}
 LO_RANGE = [c for c in range(0x23, 0x2f)]          # # $ % & ' ( ) * + , - .
 HI_RANGE = [c for c in range(0x76, 0x100)]         # v w x y z { | } ~ DEL and every byte >= 0x80
 TEXT = {"SP": b" ", "NL": b"\n", "{": b"{", "}": b"}", "[": b"[", "]": b"]", ":": b":", ",": b",",
@@ -305,7 +305,8 @@ def run(ctx):
         ph.mark("tlc-design")
         # 2. behaviours (the generation runs are small; they run side by side, one worker each)
         if thorough:
-            gens = [("A_big", None, None), ("B_big", None, None), ("C", None, None), ("Z", None, None), ("sim", 5000, 9)]
+            gens = [("A_big", None, None), ("B_big", None, None), ("C", None, None), ("K1", None, None), ("K2", None, None),
+                    ("Z", None, None), ("sim", 5000, 9)]
         else:
             gens = [("A1", None, None), ("A2", None, None), ("B", None, None), ("C", None, None), ("Z", None, None), ("sim", 300, 9)]
         jobs = []
